@@ -38,7 +38,7 @@ type vAddr struct{ s string }
 func (a *vAddr) Network() string { return "tcp" }
 func (a *vAddr) String() string  { return a.s }
 
-//verif: mode=int unwind=300
+// verif: mode=int unwind=300
 func VH_C15_RoundRobin() {
 	lb := new(roundRobinLoadBalancer)
 	n := vPickN(vCfg("maxN", 16))
@@ -56,7 +56,7 @@ func VH_C15_RoundRobin() {
 
 // after k*N accepts every loop got exactly k (literal form of the statement, small N and k)
 //
-//verif: mode=int unwind=300
+// verif: mode=int unwind=300
 func VH_C15_RoundRobinCounts() {
 	lb := new(roundRobinLoadBalancer)
 	n := vPickN(vCfg("maxNcount", 4))
@@ -86,7 +86,7 @@ func vPickK() int {
 	return 3
 }
 
-//verif: mode=int unwind=300
+// verif: mode=int unwind=300
 func VH_C15_LeastConnections() {
 	lb := new(leastConnectionsLoadBalancer)
 	n := vPickN(vCfg("maxNlc", 8))
@@ -110,7 +110,7 @@ func VH_C15_LeastConnections() {
 	vReach("C15.lc.end")
 }
 
-//verif: mode=int unwind=300
+// verif: mode=int unwind=300
 func VH_C15_SourceAddrHash() {
 	lb := new(sourceAddrHashLoadBalancer)
 	n := vPickN(vCfg("maxN", 16))
